@@ -18,7 +18,7 @@ import zlib
 
 import typedpy
 from typedpy import (Structure, ImmutableStructure, Partial, AllFieldsRequired, Extend, Omit, Pick,
-                     ImmutableField, String, Integer, Field)
+                     ImmutableField, String, Integer, Field, Deserializer)
 from typedpy.commons import Constant
 from typedpy.structures import (AbstractStructure, FinalStructure, keys_of, TypedPyDefaults)
 from inspect import Parameter
@@ -1037,8 +1037,83 @@ def ctor_run(cls, env, vg):
             r = {"ok": rename_inline(dump.dump_value(x, env.ctx), env.ctx)}
         except Exception as e:
             r = {"err": err_name(e), "msg": str(e)[:200]}
-        out.append({"kw": actual, "res": r})
+        rec = {"kw": actual, "res": r}
+        if len(out) < 2 or is_abstract(cls):
+            rec["via"] = run_entries(cls, actual, env)
+        out.append(rec)
     return out
+
+
+ENTRIES = ["ctor", "fromOther", "trustFlag", "trustedKw", "trustedMap", "deserTrusted"]
+
+
+def is_abstract(cls):
+    return cls is AbstractStructure or any(b is AbstractStructure for b in cls.__bases__)
+
+
+def run_entries(cls, kw_wire, env):
+    """every class-level way of obtaining an instance of `cls` from the same keyword arguments: constructor,
+    from_other_class(mapping), class-level trust flag + constructor, from_trusted_data(**kw) / (mapping), trusted
+    deserialization.  -> {entry: {"ok": class name} | {"err": exception class, "abstract": refusal mentions abstract}}"""
+    def load():
+        return {k: dump.load_value(v, env.ctx) for k, v in kw_wire}
+
+    def attempt(f):
+        try:
+            x = f()
+            return {"ok": type(x).__name__}
+        except Exception as e:
+            return {"err": err_name(e), "abstract": "abstract" in str(e)}
+
+    def with_flag():
+        had = "_trust_supplied_values" in cls.__dict__
+        cls.trust_supplied_values(True)
+        try:
+            return cls(**load())
+        finally:
+            if not had:
+                del cls._trust_supplied_values
+
+    try:
+        load()
+    except Exception:
+        return None
+    return {"ctor": attempt(lambda: cls(**load())),
+            "fromOther": attempt(lambda: cls.from_other_class(load())),
+            "trustFlag": attempt(with_flag),
+            "trustedKw": attempt(lambda: cls.from_trusted_data(**load())),
+            "trustedMap": attempt(lambda: cls.from_trusted_data(load())),
+            "deserTrusted": attempt(lambda: Deserializer(cls).deserialize(load(), direct_trusted_mapping=True))}
+
+
+def cast_to_abstract_obs(cls, ctor, env):
+    """an instance of a concrete class cast to each of its abstract ancestors must be refused"""
+    out = []
+    targets = [a for a in cls.__mro__[1:] if isinstance(a, type) and issubclass(a, Structure) and is_abstract(a)]
+    if not targets or is_abstract(cls):
+        return out
+    for c in ctor:
+        if "ok" not in c["res"]:
+            continue
+        try:
+            x = cls(**{k: dump.load_value(v, env.ctx) for k, v in c["kw"]})
+        except Exception:
+            continue
+        for a in targets:
+            try:
+                y = x.cast_to(a)
+                out.append({"target": a.__name__, "got": type(y).__name__})
+            except TypeError as e:
+                if "abstract" not in str(e):
+                    out.append({"target": a.__name__, "err": str(e)[:120]})
+            except Exception as e:
+                out.append({"target": a.__name__, "err": f"{type(e).__name__}: {e}"[:120]})
+        break
+    return out
+
+
+def is_abstract_src(src):
+    return "AbstractStructure" in src["bases"]
 
 
 def sig_required(cls):
@@ -1288,6 +1363,7 @@ def run_step(st, env, vg):
         res["obs"]["bases_unchanged"] = before == after
         add_ctor(res, cls, env, vg, skip=env.faults_stream)
         res["obs"]["base_rejects"] = base_accepts_obs(cls, res["ctor"], env)
+        res["obs"]["cast_to_abstract"] = cast_to_abstract_obs(cls, res["ctor"], env)
         return res
     if op == "derive":
         if st["source"] not in env.classes:
@@ -1318,11 +1394,12 @@ def run_step(st, env, vg):
         env.field_classes[st["name"]] = cls
         return {"ok": [c.__name__ for c in cls.__mro__ if c.__name__ in env.field_classes]}
     if op == "abstract":
+        via = {"[]": run_entries(AbstractStructure, [], env), "x=1": run_entries(AbstractStructure, [["x", 1]], env)}
         try:
             AbstractStructure()
-            return {"ok": "instantiated"}
+            return {"ok": "instantiated", "via": via}
         except TypeError as e:
-            return {"err": "TypeError", "msg": str(e)[:100]}
+            return {"err": "TypeError", "msg": str(e)[:100], "via": via}
     raise ValueError(op)
 
 
@@ -1391,6 +1468,9 @@ def correspondence(case, impl, model):
         if st["op"] == "abstract":
             if ("ok" in r) != ("ok" in m):
                 return f"{what}: AbstractStructure() model {m} real {r}"
+            msg = via_correspondence(what, "[]", (r.get("via") or {}).get("[]"), m.get("via"), [])
+            if msg:
+                return msg
             continue
         if "err" in r:
             if "err" not in m:
@@ -1451,6 +1531,34 @@ def bridge_correspondence(what, r, m):
             return f"{what}: constructor {kw}: model raises {mr['err']}, real code accepts"
         elif rr["err"] != mr["err"] and rr["err"] not in mc.get("errs", []):
             return f"{what}: constructor {kw}: exception class differs: model {mr['err']} {mc.get('errs')}, real {rr['err']}: {rr.get('msg')}"
+        msg = via_correspondence(what, kw, rc.get("via"), mc.get("via"), mc.get("errs", []))
+        if msg:
+            return msg
+    return None
+
+
+def via_correspondence(what, kw, rv, mv, errs):
+    """the other entry points (Entry / instantiateVia of Sem/DefineBridge.lean) on the same keyword arguments:
+    the validating ones decide like the model; the trusting ones succeed whenever the constructor does and are
+    refused (TypeError) exactly when the model refuses them, i.e. for an abstract class"""
+    if not rv or not mv:
+        return None
+    ctor_ok = "ok" in rv["ctor"]
+    for e in ENTRIES:
+        r, m = rv[e], mv[e]
+        if e in ("ctor", "fromOther"):
+            if ("ok" in r) != (m == "ok"):
+                return f"{what}: {e} {kw}: model {m}, real {r}"
+            if "err" in r and r["err"] != m and r["err"] not in errs:
+                return f"{what}: {e} {kw}: exception class differs: model {m} {errs}, real {r}"
+        elif m != "ok":
+            # trusted deserialization may fail on the document before it reaches the constructor: any refusal counts
+            if "ok" in r or (r["err"] != m and e != "deserTrusted"):
+                return f"{what}: {e} {kw}: model refuses ({m}), real {r}"
+        elif ctor_ok and e != "deserTrusted" and "ok" not in r:
+            return f"{what}: {e} {kw}: the constructor accepts these arguments but the trusting entry raises {r}"
+        elif "err" in r and r.get("abstract"):
+            return f"{what}: {e} {kw}: refused as abstract although the model's class is not abstract: {r}"
     return None
 
 
